@@ -17,7 +17,7 @@
 (* documented to return a magnitude).                                        *)
 EXTENDS PrintEval, IOUtils
 
-Recs == JsonDeserialize(IOEnv.TRACE_FILE)     \* [id, a, b, pt1, pt2, alt, pta1, pta2]
+Recs == JsonDeserialize(IOEnv.TRACE_FILE)     \* [id, a, b, pt1, pt2, alt, pta1, pta2, trig]
 
 VARIABLE t
 tvars == <<t, stack, prog>>
@@ -28,9 +28,48 @@ Decide(a, b, pt1, pt2) ==
   IN  IF va1 = Undef \/ vb1 = Undef \/ va2 = Undef \/ vb2 = Undef THEN "UNDEC"
       ELSE IF va1 = vb1 /\ va2 = vb2 THEN "HOLDS" ELSE "FAILS"
 
+(* Trigonometric functions at rational multiples of pi.  sin/cos/tan of the  *)
+(* law are compiled to a NEW leaf holding the exact rational value, with a   *)
+(* side record  trig = <<fn, n, d, leaf>>  (fn: 1 sin, 2 cos, 3 tan) whose   *)
+(* programs a, b state  argument = n/d * pi.  TLC decides both that equation *)
+(* and that the leaf holds the value of this table (n/d in lowest terms).    *)
+NoTrig == <<0, 0>>
+TrigVal(fn, n, d) ==
+  LET m == n % (2 * d) IN
+  CASE fn = 1 /\ d = 1 -> <<0, 1>>
+    [] fn = 1 /\ d = 2 -> IF m = 1 THEN <<1, 1>> ELSE <<-1, 1>>
+    [] fn = 1 /\ d = 6 /\ m \in {1, 5}  -> <<1, 2>>
+    [] fn = 1 /\ d = 6 /\ m \in {7, 11} -> <<-1, 2>>
+    [] fn = 2 /\ d = 1 -> IF m = 0 THEN <<1, 1>> ELSE <<-1, 1>>
+    [] fn = 2 /\ d = 2 -> <<0, 1>>
+    [] fn = 2 /\ d = 3 /\ m \in {1, 5} -> <<1, 2>>
+    [] fn = 2 /\ d = 3 /\ m \in {2, 4} -> <<-1, 2>>
+    [] fn = 3 /\ d = 1 -> <<0, 1>>
+    [] fn = 3 /\ d = 4 /\ m \in {1, 5} -> <<1, 1>>
+    [] fn = 3 /\ d = 4 /\ m \in {3, 7} -> <<-1, 1>>
+    [] OTHER -> NoTrig
+\* sanity of the table itself: sin^2 + cos^2 = 1 wherever both are listed, tan = sin / cos
+TrigTableOK ==
+  \A d \in {1, 2, 3, 4, 6} : \A n \in 0..(2 * d - 1) :
+    LET s == TrigVal(1, n, d)  c == TrigVal(2, n, d)  tn == TrigVal(3, n, d)  p == Primes[1] IN
+      /\ (s # NoTrig /\ c # NoTrig) =>
+            FAdd(p, FMul(p, RatVal(p, s[1], s[2]), RatVal(p, s[1], s[2])),
+                    FMul(p, RatVal(p, c[1], c[2]), RatVal(p, c[1], c[2]))) = 1
+      /\ (s # NoTrig /\ c # NoTrig /\ tn # NoTrig /\ c[1] # 0) =>
+            FMul(p, RatVal(p, tn[1], tn[2]), RatVal(p, c[1], c[2])) = RatVal(p, s[1], s[2])
+ASSUME TrigTableOK
+
+TrigVerdict(r) ==
+  LET fn == r.trig[1]  n == r.trig[2]  d == r.trig[3]  leaf == r.trig[4]  tv == TrigVal(fn, n, d) IN
+  IF tv = NoTrig \/ d < 1 THEN "NOTABLE"
+  ELSE IF Decide(r.a, r.b, r.pt1, r.pt2) # "HOLDS" THEN "BADANGLE"
+  ELSE IF r.pt1[leaf] = RatVal(Primes[1], tv[1], tv[2]) /\ r.pt2[leaf] = RatVal(Primes[2], tv[1], tv[2]) THEN "HOLDS"
+  ELSE "FAILS"
+
 Verdict(r) ==
   LET v == Decide(r.a, r.b, r.pt1, r.pt2) IN
-  IF v = "FAILS" /\ r.alt THEN
+  IF Len(r.trig) = 4 THEN TrigVerdict(r)
+  ELSE IF v = "FAILS" /\ r.alt THEN
        (IF Decide(r.a, r.b, r.pta1, r.pta2) = "HOLDS" THEN "HOLDS-MAGNITUDE" ELSE "FAILS")
   ELSE v
 
